@@ -28,6 +28,7 @@ LEVEL_TEXT = (
     "states, the species derivatives must equal stoichiometry x kinetic law with function definitions, rules and the "
     "compartment size applied (amount vs concentration decided from the imported initial value, compartment size 2). "
     "Two-document sessions (different stems, same stem in two directories, first model re-evaluated) must not interfere."
+    " Also: laws with abs / min / max / roots / fractional powers, chains of initial assignments (also on the compartment), identifier variants with Python builtins and with the generated module's reserved ids next to '<id>_fn', documents revised in place and read again within the same second, stems that differ by one digit; amount vs concentration is decided structurally (a '<species>_amount' derived next to the variable)."
 )
 LEVEL_NOTE = "trusted: libsbml to write the documents; third-party pysbml is part of the import path and only observable through mxlpy.sbml.read"
 RULE = (
